@@ -46,6 +46,14 @@ def batch(rng, tier):
         st = "\"%s\"" % "abc"[:ln]
         for ix in (-9, -ln - 1, -ln, -1, 0, ln - 1, ln, ln + 1, 9, 4611686018427387903, -4611686018427387904):
             progs += ["%s[%d]" % (arr, ix), "%s[%d]" % (st, ix), "stel a = %s; a[%d] = 1; a" % (arr, ix), "stel s = %s; s[%d] = \"z\"; s" % (st, ix)]
+    # values are rendered (print, string) while other threads render theirs: nested, shared and cyclic arrays, many times per
+    # evaluation so that evaluations on different threads overlap
+    shapes = ["[[1, 2], [3, 4], [5, [6, 7]]]", "[[[[1]]], [[2]], [3]]", "[\"a\", [1.5, [ja, [nee]]]]", "[[], [[]], [[], [[]]]]"]
+    for k, sh in enumerate(shapes):
+        progs.append("stel a = %s; stel i = 0; zolang i < 150 { i += 1; print(a); }; string(a)" % sh)
+        progs.append("stel d = %s; stel a = [d, d, [d]]; stel i = 0; zolang i < 100 { i += 1; print(a, d); }; [string(a), string(d)]" % sh)
+        progs.append("stel a = [%d, 0]; a[1] = a; stel i = 0; zolang i < 150 { i += 1; print(a); }; string(a)" % k)
+        progs.append("stel a = [0]; stel b = [a, %s]; a[0] = b; stel i = 0; zolang i < 100 { i += 1; print(b); print(a); }; string(b)" % sh)
     return progs
 
 
